@@ -200,6 +200,7 @@ def finish(pid, tier, seed, level, rule, assumptions, results, t0, required_reac
         "known_finding_witnesses": dict(known_hits),
         "inconclusive": inconclusive[:10],
         "jobs": len(results),
+        "peak_threads_in_one_worker": max([int(r.get("peak_threads", 0)) for r in results] or [0]),
     }
     if exhaustive is not None:
         cov["exhaustive"] = bool(exhaustive)
